@@ -204,6 +204,30 @@ class Mon:
                 self.v("alias_factory_subclass_from_arg modified the mapping it was given: %r -> %r" % (c.state["copy"], dict(arg)), check="mapping_modified")
         if isinstance(arg, fam) and c.result is not arg:
             self.v("alias_factory_subclass_from_arg did not return the instance it was given", check="instance_identity")
+        # a string is an alias as it stands (no case folding, no trimming); in a mapping 'alias' goes before 'name'
+        alias = None
+        if isinstance(arg, str):
+            alias = arg
+        elif c.state and c.state["copy"] is not None:
+            alias = c.state["copy"].get("alias", c.state["copy"].get("name"))
+        if isinstance(alias, str) and isinstance(fam, type):
+            try:
+                want = self.expected(fam, alias)
+            except Exception:
+                want = "ambiguous"
+            self.rec.count("factory_resolutions_judged")
+            info = dict(root=fam.__name__, alias=repr(alias), spelled="string" if isinstance(arg, str) else "mapping")
+            if want == "ambiguous":
+                pass
+            elif want is None:
+                if not isinstance(c.exc, ValueError):
+                    self.v("alias_factory_subclass_from_arg(%s, %r): no class of the family has the alias %r, got %r instead of ValueError" % (
+                        fam.__name__, arg, alias, c.exc if c.exc is not None else type(c.result).__name__), check="factory_unknown_alias", **info)
+            elif c.exc is None and type(c.result) is not want:
+                self.v("alias_factory_subclass_from_arg(%s, %r) built a %s; the class registered last with the alias %r is %s" % (
+                    fam.__name__, arg, type(c.result).__name__, alias, want.__name__), check="factory_resolve", **info)
+            elif isinstance(c.exc, ValueError) and str(c.exc) == "Cannot find subclass with alias '%s'" % (alias,):
+                self.v("alias_factory_subclass_from_arg(%s, %r) found nothing; %s has the alias %r" % (fam.__name__, arg, want.__name__, alias), check="factory_resolve", **info)
 
 
 def registry_part(mon, rec):
@@ -248,13 +272,20 @@ def registry_part(mon, rec):
         rec.count("cross_family_aliases_probed", len(frags))
         for a in seen:
             frags |= {a[:-1], a[1:], a[1:-1], a[: len(a) // 2], a + "s", a.upper()}
-        for bad in sorted({"", "no-such-alias", "MEL", " mel", "mel "} | frags):
+        for bad in sorted({"", "no-such-alias", "MEL", " mel", "mel "} | frags | {a.capitalize() for a in seen} | {" " + a for a in seen} | {a + "\n" for a in seen}):
             if bad in seen:
                 continue
-            try:
-                fam.from_alias(bad)
-            except Exception:
-                pass
+            for call in (fam.from_alias, lambda b: alias_factory_subclass_from_arg(fam, b), lambda b: alias_factory_subclass_from_arg(fam, {"name": b})):
+                try:
+                    call(bad)
+                except Exception:
+                    pass
+        for good in sorted(seen):
+            for call in (lambda b: alias_factory_subclass_from_arg(fam, b), lambda b: alias_factory_subclass_from_arg(fam, {"alias": b, "name": "no-such-alias"})):
+                try:
+                    call(good)
+                except Exception:
+                    pass  # (classes that need arguments refuse with TypeError: judged by the monitor only when something was built)
         # names documented for other families only: unknown here, even if some class's alias container now holds them
         # (the monitor's own oracle reads the live containers, so this part decides on the documented table instead)
         library = {c.__name__ for c in walk(fam) if c.__module__.startswith("pydrobert.speech")}
@@ -337,10 +368,27 @@ ns = {"ScalingFunction": scales.ScalingFunction, "MelScaling": scales.MelScaling
       "HannWindow": filters.HannWindow, "PreProcessor": pre.PreProcessor, "Dither": pre.Dither}
 out = []
 BUILT = []
+LINEAR = {}  # class defined by this script -> does it map Hz to itself (own methods) or inherit a library scale's methods
 def mk(kind, vals):
     return {"set": set, "list": list, "tuple": tuple, "frozenset": frozenset, "dict": lambda v: {a: None for a in v}}[kind](vals)
 for st in steps:
-    if st[0] in ("def", "defstrict"):
+    if st[0] == "defplain":
+        # a subclass that does not declare aliases of its own: it goes by its parent's
+        _, name, base = st
+        ns[name] = type(name, (ns[base],), {"__init__": (lambda self, *a, **k: BUILT.append(type(self).__name__))})
+        LINEAR[name] = LINEAR.get(base, False)
+    elif st[0] == "factory":
+        from pydrobert.speech.alias import alias_factory_subclass_from_arg as afs
+        _, root, alias, form = st
+        try:
+            out.append(type(afs(ns[root], alias if form == "string" else {form: alias})).__name__)
+        except ValueError as e:
+            out.append("ValueError")
+        except TypeError as e:
+            out.append("TypeError:" + str(e).split("REFUSED:")[-1] if "REFUSED:" in str(e) else "TypeError")
+        except Exception as e:
+            out.append("EXC:" + repr(e)[:100])
+    elif st[0] in ("def", "defstrict"):
         _, name, base, kind, vals = st
         def strict_init(self, *args, **kw):
             if not args and "required_argument" not in kw:
@@ -349,6 +397,7 @@ for st in steps:
         body = {"aliases": mk(kind, vals), "__init__": (strict_init if st[0] == "defstrict" else (lambda self, *a, **k: BUILT.append(type(self).__name__))), "scale_to_hertz": (lambda self, s: s),
                 "hertz_to_scale": (lambda self, h: h), "get_impulse_response": (lambda self, w: None), "apply": (lambda self, *a, **k: None)}
         ns[name] = type(name, (ns[base],), body)
+        LINEAR[name] = True
     elif st[0] == "nested":
         # the alias used where a bank takes its scaling function (bare string / {"name": ..} / {"alias": ..}): the classes
         # defined by this script map Hz to themselves, so their banks have centres equally spaced in Hz
@@ -362,7 +411,7 @@ for st in steps:
             d = np.diff(np.asarray(b.centers_hz, dtype=float))
             linear = bool(np.max(np.abs(d - d.mean())) < 1e-6 * d.mean())
             # which scale class was instantiated for the bank, confirmed by the layout it produced
-            out.append((BUILT[-1] if linear else "LAYOUT-NOT-OF:" + BUILT[-1]) if BUILT else ("stock" if not linear else "LAYOUT-LINEAR-WITHOUT-USER-CLASS"))
+            out.append((BUILT[-1] if linear == LINEAR[BUILT[-1]] else "LAYOUT-NOT-OF:" + BUILT[-1]) if BUILT else ("stock" if not linear else "LAYOUT-LINEAR-WITHOUT-USER-CLASS"))
         except ValueError as e:
             out.append("ValueError")
         except TypeError as e:
@@ -396,7 +445,12 @@ def expected_for(steps):
     exp = []
     strict = set()
     for st in steps:
-        if st[0] in ("def", "defstrict"):
+        if st[0] == "defplain":
+            clock += 1
+            parent[st[1]] = st[2]
+            aliases[st[1]] = list(aliases.get(st[2], []))  # inherited
+            order[st[1]] = clock
+        elif st[0] in ("def", "defstrict"):
             clock += 1
             parent[st[1]] = st[2]
             aliases[st[1]] = list(st[4])
@@ -404,7 +458,7 @@ def expected_for(steps):
             if st[0] == "defstrict":
                 strict.add(st[1])
         else:
-            root, alias = (st[1], st[2]) if st[0] == "lookup" else ("ScalingFunction", st[3])
+            root, alias = (st[1], st[2]) if st[0] in ("lookup", "factory") else ("ScalingFunction", st[3])
 
             def under(c):
                 while c is not None:
@@ -450,6 +504,14 @@ DIRECTED = {
     "nested_shadowed_scale": [["nested", "tri", "string", "mel"], ["def", "X", "ScalingFunction", "set", ["mel"]], ["nested", "tri", "string", "mel"], ["nested", "gabor", "name", "mel"],
                               ["nested", "gammatone", "alias", "mel"], ["nested", "gabor", "string", "bark"], ["def", "Y", "BarkScaling", "list", ["bark"]],
                               ["nested", "gammatone", "string", "bark"], ["nested", "tri", "name", "bark"], ["lookup", "ScalingFunction", "bark"]],
+    "inherited_aliases": [["defplain", "P", "HannWindow"], ["lookup", "WindowFunction", "hann"], ["lookup", "WindowFunction", "hanning"], ["lookup", "P", "hann"], ["lookup", "HannWindow", "hann"],
+                          ["factory", "WindowFunction", "hann", "string"], ["factory", "WindowFunction", "hanning", "name"],
+                          ["def", "A", "ScalingFunction", "set", ["zz"]], ["defplain", "A2", "A"], ["lookup", "ScalingFunction", "zz"], ["lookup", "A2", "zz"],
+                          ["defplain", "M2", "MelScaling"], ["nested", "tri", "string", "mel"], ["lookup", "ScalingFunction", "mel"]],
+    "aliases_are_case_sensitive": [["def", "E", "ScalingFunction", "set", ["ERB", "Kaiser-Bessel"]], ["lookup", "ScalingFunction", "ERB"], ["factory", "ScalingFunction", "ERB", "string"],
+                                   ["factory", "ScalingFunction", "Kaiser-Bessel", "string"], ["factory", "ScalingFunction", "ERB", "name"], ["factory", "ScalingFunction", "erb", "string"],
+                                   ["factory", "ScalingFunction", "Mel", "string"], ["factory", "ScalingFunction", " mel", "string"], ["factory", "ScalingFunction", "mel\n", "string"],
+                                   ["factory", "ScalingFunction", "MEL", "alias"], ["nested", "gabor", "string", "ERB"], ["factory", "ScalingFunction", "mel", "string"]],
     "shadow_own_parent_then_sibling": [["def", "P", "PreProcessor", "set", ["p"]], ["def", "C", "P", "set", ["p"]], ["def", "S", "PreProcessor", "set", ["p"]],
                                        ["lookup", "PreProcessor", "p"], ["lookup", "P", "p"]],
 }
@@ -459,7 +521,7 @@ def random_scenario(rng):
     roots = ["ScalingFunction", "WindowFunction", "PreProcessor"]
     root = str(rng.choice(roots))
     builtin = {"ScalingFunction": ["MelScaling", "BarkScaling"], "WindowFunction": ["HannWindow"], "PreProcessor": ["Dither"]}[root]
-    pool = ["u", "v", "w"] + [BUILTIN_ALIAS[b][0] for b in builtin]
+    pool = ["u", "v", "w", "Wq"] + [BUILTIN_ALIAS[b][0] for b in builtin]
     names, steps = [], []
     for j in range(int(rng.integers(3, 8))):
         if names and rng.random() < 0.3:
@@ -467,11 +529,16 @@ def random_scenario(rng):
         base = str(rng.choice([root] + names + (builtin if rng.random() < 0.3 else [])))
         name = "C%d" % j
         k = int(rng.integers(1, 3))
-        steps.append(["defstrict" if rng.random() < 0.15 else "def", name, base, str(rng.choice(["set", "list", "tuple", "frozenset", "dict"])),
-                      [str(a) for a in rng.choice(pool, size=k, replace=False)]])
+        if rng.random() < 0.15:
+            steps.append(["defplain", name, base])  # inherits its parent's aliases
+        else:
+            steps.append(["defstrict" if rng.random() < 0.15 else "def", name, base, str(rng.choice(["set", "list", "tuple", "frozenset", "dict"])),
+                          [str(a) for a in rng.choice(pool, size=k, replace=False)]])
         names.append(name)
     for a in pool:
         steps.append(["lookup", root, a])
+        if rng.random() < 0.4:
+            steps.append(["factory", root, str(rng.choice([a, a, a.swapcase(), " " + a])), str(rng.choice(["string", "name", "alias"]))])
         if root == "ScalingFunction" and rng.random() < 0.5:
             steps.append(["nested", str(rng.choice(["tri", "gabor", "gammatone"])), str(rng.choice(["string", "name", "alias"])), a])
     steps.append(["lookup", str(rng.choice(names)), str(rng.choice(pool))])
@@ -490,7 +557,7 @@ def run_scenario(mon, rec, name, steps, workdir):
         rec.inconc("scenario runner failed: %r" % (e,))
         return
     want, parent, order = expected_for(steps)
-    lookups = [s for s in steps if s[0] in ("lookup", "nested")]
+    lookups = [s for s in steps if s[0] in ("lookup", "nested", "factory")]
     rec.count("scenarios")
     collision = False
     for (st, g, (w, wcls)) in zip(lookups, got, want):
